@@ -78,13 +78,71 @@ def return_value(body, blocks):
     return val
 
 
+def resolve_locals(body, blocks, atoms):
+    """path-sensitive value of multi-definition bool locals (matches! / `let b = match ..` temporaries): an atom bool(local)
+    tested in block s is replaced by the value the local was last given on this path (a constant -> the atom is dropped or
+    the path is infeasible; a computed term -> the normalised atom of that term). Returns None for an infeasible path."""
+    out = []
+    for a in atoms:
+        if not (a[0] == "bool" and isinstance(a[1][0], tuple) and a[1][0] and a[1][0][0] == "local" and len(a) > 3 and a[3] in blocks):
+            out.append(a)
+            continue
+        l = a[1][0][1]
+        upto = blocks[:blocks.index(a[3]) + 1]
+        last = None
+        for bb in upto:
+            b = body.blocks[bb]
+            for st in b["stmts"]:
+                if st["k"] == "assign" and st["dst"]["l"] == l and not st["dst"]["p"]:
+                    last = ("stmt", body.rvalue_term(st["rv"]), bb)
+            t = b["term"]
+            if t["k"] == "call" and t["dst"]["l"] == l and not t["dst"]["p"] and bb != a[3]:
+                last = ("call", body.call_term(bb, t), bb)
+        if last is None:
+            out.append(a)
+            continue
+        t = last[1]
+        if isinstance(t, tuple) and t and t[0] == "const" and t[1] == "bool":
+            if bool(t[2]) != a[2]:
+                return None
+            continue
+        out.append(G.norm_bool(t, a[2]) + (last[2],))
+    return out
+
+
+def resolve_value(body, blocks, t):
+    """a returned multi-definition local -> the value it was last given on this path"""
+    for _ in range(4):
+        if not (isinstance(t, tuple) and t and t[0] == "local"):
+            return t
+        l = t[1]
+        last = None
+        for bb in blocks:
+            b = body.blocks[bb]
+            for st in b["stmts"]:
+                if st["k"] == "assign" and st["dst"]["l"] == l and not st["dst"]["p"]:
+                    last = body.rvalue_term(st["rv"])
+            tm = b["term"]
+            if tm["k"] == "call" and tm["dst"]["l"] == l and not tm["dst"]["p"]:
+                last = body.call_term(bb, tm)
+        if last is None or last == t:
+            return t
+        t = last
+    return t
+
+
 def decision_table(body, prog, max_paths=4096):
     """list of (atoms, return term, blocks) for the feasible paths"""
     rows = []
     for blocks, decs in enumerate_paths(body, max_paths):
         atoms = path_atoms(body, prog, decs)
-        if not feasible(atoms):
+        atoms = resolve_locals(body, blocks, atoms)
+        if atoms is None or not feasible(atoms):
             continue
+        ret = return_value(body, blocks)
+        ret = resolve_value(body, blocks, ret)
+        rows.append((atoms, ret, blocks))
+        continue
         rows.append((atoms, return_value(body, blocks), blocks))
     return rows
 
